@@ -902,6 +902,10 @@ pub unsafe extern "C" fn SFileEnumFiles(
         ArchiveHandle::Mutable { archive, .. } => archive.list(),
     };
 
+    // The callback is user code and may call back into this API (e.g. SFileHasFile
+    // on the same archive): it must not run under the ARCHIVES lock
+    drop(archives);
+
     match file_list {
         Ok(entries) => {
             for entry in entries {
